@@ -103,6 +103,12 @@ func (iter *FastIterator) Next() {
 
 	if iter.fastIterator == nil {
 		iter.fastIterator, iter.err = iter.ndb.getFastIterator(iter.start, iter.end, iter.ascending)
+		if iter.err != nil {
+			// the underlying iterator could not be created
+			iter.fastIterator = nil
+			iter.valid = false
+			return
+		}
 		iter.valid = true
 	} else {
 		iter.fastIterator.Next()
